@@ -236,14 +236,31 @@ pub fn run(args: &Args, rep: &mut Report) {
                 vc = grid(&mut rng, tiny);
             }
         }
-        let (img, vol_bytes) = match cache.get(&vc) {
-            Ok(x) => x,
-            Err(e) => {
-                rep.count("volume_config_rejected", 1);
-                if rep.notes.len() < 5 {
-                    rep.notes.push(e);
+        let mut builder_label = None;
+        let (img, vol_bytes) = if args.flag("builder") && rng.chance(3, 4) {
+            // foreign volume from the spec-driven builder (3 FATs, mirroring off, high nibbles, residue, ...)
+            let spec = crate::build::Spec::random(&mut rng);
+            match crate::build::build(&spec, &mut rng) {
+                Ok((img, t)) => {
+                    builder_label = Some(spec.label());
+                    vc.fat = spec.fat;
+                    (img, t.vol_bytes)
                 }
-                continue;
+                Err(_) => {
+                    rep.count("volume_config_rejected", 1);
+                    continue;
+                }
+            }
+        } else {
+            match cache.get(&vc) {
+                Ok(x) => x,
+                Err(e) => {
+                    rep.count("volume_config_rejected", 1);
+                    if rep.notes.len() < 5 {
+                        rep.notes.push(e);
+                    }
+                    continue;
+                }
             }
         };
         let mut img = img;
@@ -261,8 +278,10 @@ pub fn run(args: &Args, rep: &mut Report) {
         scfg.short_dev = if args.flag("short") && rng.chance(1, 3) { Some(rng.next_u64()) } else { None };
         scfg.shadow_mount = args.flag("shadow");
         scfg.lib_walk = !args.flag("nolibwalk");
-        let class = fnv_of(&[&vc.class(), if scfg.short_dev.is_some() { "short" } else { "full" }]);
-        classes.insert(vc.class());
+        scfg.tolerate_baseline_diags = builder_label.is_some();
+        let cls_name = builder_label.clone().map(|l| format!("builder:{}", l.split("-res").next().unwrap_or(""))).unwrap_or_else(|| vc.class());
+        let class = fnv_of(&[&cls_name, if scfg.short_dev.is_some() { "short" } else { "full" }]);
+        classes.insert(cls_name);
         let mut src = RandomSource::new(seed, 0x6e6, id, gcfg);
         let o: Outcome = run_session(&scfg, &img, vol_bytes, class, &mut src);
         rep.evaluations += o.counters.api_calls;
@@ -295,7 +314,10 @@ pub fn run(args: &Args, rep: &mut Report) {
             let (small, v2, runs) = shrink(&scfg, &img, vol_bytes, class, &o.history[..(v.op_index + 1).min(o.history.len())], &v.sig, 250);
             rep.count("shrink_runs", runs as u64);
             let v = v2.unwrap_or(v);
-            let rj = replay_json("sess", args, id, &vc, &o.history, &small, &v.detail);
+            let mut rj = replay_json("sess", args, id, &vc, &o.history, &small, &v.detail);
+            if let Some(l) = &builder_label {
+                rj.put("volume", J::s(format!("builder image {}", l)));
+            }
             rep.viol(v.prop, &v.sig, &v.rule, &v.detail, rj);
         }
     }
